@@ -202,13 +202,16 @@ var solverBins = []struct{ name, bin string }{
 	{"z3-5.1.0", "z3-new"},
 	{"z3-4.8.12", "z3"},
 	{"cvc5-1.0", "cvc5"},
+	// same binary, different strategy: eager bit-blasting decides the linear bit-vector chains
+	// (frame size sums) on which the default combination of theories times out
+	{"z3-5.1.0-bitblast", "z3-new"},
 }
 
 func solverArgs(name, file string, timeout time.Duration) []string {
 	ms := fmt.Sprintf("%d", timeout.Milliseconds())
 	switch {
-	case name == "z3-5.1.0-intblast":
-		return []string{"-smt2", "-t:" + ms, "smt.bv.solver=2", file}
+	case name == "z3-5.1.0-bitblast":
+		return []string{"-smt2", "-t:" + ms, "tactic.default_tactic=(then simplify solve-eqs max-bv-sharing bit-blast smt)", file}
 	case strings.HasPrefix(name, "z3"):
 		return []string{"-smt2", "-t:" + ms, file}
 	default:
